@@ -312,6 +312,12 @@ func (w *World) registerIntrinsics() {
 	w.reg(V+"Observe", func(e *Exec, fn *ssa.Function, a []Value) Value {
 		return nil
 	})
+	// OutOfModel(msg): a harness model was asked something it does not model (e.g. an SQL
+	// shape it cannot interpret): the path is out of encoding, never a pass.
+	w.reg(V+"OutOfModel", func(e *Exec, fn *ssa.Function, a []Value) Value {
+		e.ooe("harness model: %s", e.argStr(a[0], "OutOfModel message"))
+		return nil
+	})
 	w.reg(V+"Crash", func(e *Exec, fn *ssa.Function, a []Value) Value {
 		e.abort("done", "crash")
 		return nil
